@@ -152,7 +152,7 @@ func New(prog *ssa.Program) (*Exec, error) {
 		onceDone:     map[*Value]bool{},
 		knownVals:    map[int]uint64{},
 	}
-	z3, err := solver.Start("z3-4.8.12", []string{"z3", "-in"}, "(set-option :global-decls true)\n")
+	z3, err := solver.Start("z3-4.8.12", []string{"z3", "-in"}, "(set-option :global-decls true)\n(set-option :timeout 30000)\n")
 	if err != nil {
 		return nil, err
 	}
